@@ -142,25 +142,25 @@ def runC31 (arg : String) : String :=
 /-! ## c29 -/
 open RoutinatorModel.Collector in
 /-- `c29 <never|stale|new> <rrdp 0/1> <rsync 0/1> <notify 0/1> <update ok 0/1> <stored best-before|->
-<now> <refresh> <rrdp-fallback-time>`: the outcome is classified by the model from what is stored
+<now> <refresh> <rrdp-fallback-time> <notify rejected as dubious 0/1>`: the outcome is classified by the model from what is stored
 and the clock, then the transport is decided. -/
 def runC29 (arg : String) : String :=
   let bool? : String → Option Bool := fun w => if w == "1" then some true else if w == "0" then some false else none
   match words arg with
-  | [p, re, rs, hn, ok, bb, now, refresh, fallback] =>
+  | [p, re, rs, hn, ok, bb, now, refresh, fallback, rejected] =>
     let p? : Option Policy := match p with
       | "never" => some .never | "stale" => some .stale | "new" => some .new | _ => none
     let bb? : Option (Option Nat) := if bb == "-" then some none else bb.toNat?.map some
-    match p?, bool? re, bool? rs, bool? hn, bool? ok, bb?, now.toNat?, refresh.toNat?, fallback.toNat? with
-    | some p, some re, some rs, some hn, some ok, some bb, some now, some refresh, some fallback =>
-      let out := tryUpdateOutcome ⟨refresh, fallback⟩ ok bb now
+    match p?, bool? re, bool? rs, bool? hn, bool? ok, bb?, now.toNat?, refresh.toNat?, fallback.toNat?, bool? rejected with
+    | some p, some re, some rs, some hn, some ok, some bb, some now, some refresh, some fallback, some rejected =>
+      let out := loadOutcome ⟨refresh, fallback⟩ rejected ok bb now
       let t := match repository p re rs hn out with
         | .rrdp => "rrdp" | .rsync => "rsync" | .none => "none"
       let o := match out with
         | .updated => "updated" | .current => "current" | .stale => "stale" | .unavailable => "unavailable"
       let asks := asksRrdp re hn
       s!"transport={t} asks={showBool asks} outcome={if asks then o else "-"}"
-    | _, _, _, _, _, _, _, _, _ => "bad-op"
+    | _, _, _, _, _, _, _, _, _, _ => "bad-op"
   | _ => "bad-op"
 
 /-! ## c38 -/
